@@ -182,3 +182,18 @@ package influxql
 //@ func init@var:qsReplacer
 //@   call strings.NewReplacer
 //@     requires [escapes_newline_backslash_and_quote] len(arg0) == 6
+
+// ORDER BY keys travel to the store as text too (SortFields.String() in the shipped options, re-parsed by
+// ParseSortFields): a key's name is printed as an IDENTIFIER - quoted whenever the identifier rules ask for it (a name
+// with a dash or a blank, a keyword) - never raw: `"cpu-usage" DESC` printed raw re-parses as the key `cpu`, ascending.
+//@ prop C12
+//@ func (*SortField).RenderBytes
+//@   requires field != nil && buf != nil
+//@   ghost q string = ""
+//@   ghost quoted bool = false
+//@   call QuoteIdent
+//@     requires [the_key_name_itself_is_quoted] len(arg0) == 1 && arg0[0] == field.Name
+//@     set q = ret0
+//@     set quoted = true
+//@   call (*Buffer).WriteString
+//@     requires [a_name_is_written_only_in_its_quoted_form] arg0 == " " || arg0 == "ASC" || arg0 == "DESC" || (quoted && arg0 == q)
